@@ -83,10 +83,8 @@ def catalogue(tier: str):
             drop_tasks=['b'],
             helpers=[('hold', {'tasks': ['1/a']}),
                      ('hold', {'tasks': ['1/b']})], helper_budget=1)
-        add('chain2-f2-reload', 'chain2', 2, reloads=1)
         add('prevb-f2-ra0-reload', 'prevb', 2, reloads=1,
             scheduling={'runahead limit': 'P0'})
-        add('chain2-f1-reload2', 'chain2', 1, reloads=2, drop_tasks=['b'])
         win = [('set_graph_window_extent', {'n_edge_distance': 2})]
         add('chain3-f2-window', 'chain3', 2, helpers=win, helper_budget=1)
         add('prev-f3-window', 'prev', 3, helpers=win + [
